@@ -92,6 +92,7 @@ def run(rep, tier, rng):
         forms.append((("dict", list(zip(ks, perm))), {usable[a]: usable[b_] for a, b_ in zip(ks, perm)}))
         forms.append((("seq", ks), [usable[a] for a in ks]))
         forms.append((("seq", ks), tuple(usable[a] for a in ks)))
+        forms.append((("seq", ks), {usable[a]: None for a in ks}.keys()))          # any iterable of keys, e.g. a dict view
         if not hetero:
             rk = ks + ks[:1] + ks[-1:]                     # a key sequence listing keys more than once
             forms.append((("seq", rk), [usable[a] for a in rk]))
